@@ -208,15 +208,13 @@ def worker(args):
                 inputs['raw_w'] = raww
             name = 'prim-%s-%s%d-vs-%s' % (OPS[op], kind, size, wkind if wkind == 'pyobj' else '%s%d' % wkind)
             r = ex.concretize(ex.call('cdata_richcompare', [v, w, op]), 64, 8, 'result pointer')
-            if kind == 'bool' and py.exc == 'PyExc_ValueError':
-                # a _Bool byte other than 0/1 cannot be converted: same error as reading it
+            w_bool = wkind != 'pyobj' and wkind[0] == 'bool'
+            if (kind == 'bool' or w_bool) and py.exc == 'PyExc_ValueError':
+                # a _Bool byte other than 0/1 cannot be converted: same error as reading it (either operand may be the one)
                 hutil.witness(chk, ex, name + ':bad-bool')
-                hutil.discharge(chk, ex, name + ':bad-bool=>byte>1', z3.UGT(raw, 1), inputs=inputs)
+                culprit = ([z3.UGT(raw, 1)] if kind == 'bool' else []) + ([z3.UGT(raww, 1)] if w_bool else [])
+                hutil.discharge(chk, ex, name + ':bad-bool=>byte>1', z3.Or(*culprit), inputs=inputs)
                 hutil.discharge(chk, ex, name + ':bad-bool=>NULL', r == 0, inputs=inputs)
-                return
-            if wkind != 'pyobj' and wkind[0] == 'bool' and py.exc == 'PyExc_ValueError':
-                hutil.witness(chk, ex, name + ':bad-bool-w')
-                hutil.discharge(chk, ex, name + ':bad-bool-w=>byte>1', z3.UGT(raww, 1), inputs=inputs)
                 return
             m = hutil.witness(chk, ex, name)
             if m is not None:
